@@ -569,7 +569,7 @@ func callSSA(i *interpreter, caller *frame, callpos token.Pos, fn *ssa.Function,
 		fn:     fn,
 	}
 	if fn.Parent() == nil {
-		name := fn.String()
+		name := fnName(fn)
 		if len(i.stubs) > 0 {
 			if st := i.stubs[name]; st != nil && (caller == nil || caller.fn != st) {
 				return callSSA(i, caller, callpos, st, args, nil)
@@ -863,4 +863,17 @@ func (i *interpreter) stackString() string {
 		sb.WriteString("  " + fr.fn.String() + "\n")
 	}
 	return sb.String()
+}
+
+// fnName caches (*ssa.Function).String(), which walks the receiver's type on
+// every call.
+var fnNameCache sync.Map // *ssa.Function -> string
+
+func fnName(fn *ssa.Function) string {
+	if s, ok := fnNameCache.Load(fn); ok {
+		return s.(string)
+	}
+	s := fn.String()
+	fnNameCache.Store(fn, s)
+	return s
 }
